@@ -51,12 +51,25 @@ def abstract(poly, q, raised, d=None, x=None, y=None, i=None):
     return e
 
 
+SMALL = 1.0 / 1024      # the property does not depend on the unit: every third call is made on coordinates scaled by 2^-10
+                        # (exact in binary floating point), and the answer is scaled back before it is abstracted
+
+
+def scale_of(*pts):
+    h = 0
+    for p in pts:
+        h = h * 31 + int(p[0]) * 7 + int(p[1]) * 13
+    return SMALL if h % 3 == 0 else 1
+
+
 def call_seg(a, b, q):
     from tracklib.util.geometry import proj_segment
     poly = [a, b]
+    s = scale_of(a, b, q)
     try:
         with core.quiet():
-            d, x, y = proj_segment([a[0], a[1], b[0], b[1]], q[0], q[1])
+            d, x, y = proj_segment([a[0] * s, a[1] * s, b[0] * s, b[1] * s], q[0] * s, q[1] * s)
+            d, x, y = d / s, x / s, y / s
         e = abstract(poly, q, False, d, x, y, 0)
     except Exception as ex:
         e = abstract(poly, q, True)
@@ -67,11 +80,13 @@ def call_seg(a, b, q):
 
 def call_poly(poly, q, floats=False):
     from tracklib.util.geometry import proj_polyligne
-    X = [float(p[0]) if floats else p[0] for p in poly]
-    Y = [float(p[1]) if floats else p[1] for p in poly]
+    s = scale_of(q, *poly)
+    X = [(float(p[0]) if floats else p[0]) * s for p in poly]
+    Y = [(float(p[1]) if floats else p[1]) * s for p in poly]
     try:
         with core.quiet():
-            d, x, y, i = proj_polyligne(X, Y, float(q[0]) if floats else q[0], float(q[1]) if floats else q[1])
+            d, x, y, i = proj_polyligne(X, Y, (float(q[0]) if floats else q[0]) * s, (float(q[1]) if floats else q[1]) * s)
+            d, x, y = d / s, x / s, y / s
         e = abstract(poly, q, False, d, x, y, i)
     except Exception as ex:
         e = abstract(poly, q, True)
@@ -80,20 +95,21 @@ def call_poly(poly, q, floats=False):
     return e
 
 
-def mk_track(poly):
+def mk_track(poly, s=1):
     from tracklib.core.track import Track
     from tracklib.core.obs import Obs
     from tracklib.core.obs_coords import ENUCoords
-    return Track([Obs(ENUCoords(float(p[0]), float(p[1]), 0.0)) for p in poly])
+    return Track([Obs(ENUCoords(float(p[0]) * s, float(p[1]) * s, 0.0)) for p in poly])
 
 
 def call_map(poly, q):
     from tracklib.algo.mapping import mapOnTrack
     from tracklib.core.obs_coords import ENUCoords
+    s = scale_of(q, *poly)
     try:
         with core.quiet():
-            c, d, i = mapOnTrack(ENUCoords(float(q[0]), float(q[1]), 0.0), mk_track(poly))
-        e = abstract(poly, q, False, d, c.getX(), c.getY(), i)
+            c, d, i = mapOnTrack(ENUCoords(float(q[0]) * s, float(q[1]) * s, 0.0), mk_track(poly, s))
+        e = abstract(poly, q, False, d / s, c.getX() / s, c.getY() / s, i)
     except Exception as ex:
         e = abstract(poly, q, True)
         e["exc"] = repr(ex)[:80]
